@@ -86,16 +86,16 @@ func vpC17Check(t *rapid.T, l *vpLedger, where string) {
 }
 
 func TestVP_C17_supply(t *testing.T) {
-	c := kit.New(t, "C17", "rapid: finalized histories (10..60 actions: deposits, transfers with fan-in/out, withdrawal submits/claims, mints, node removals, pledges and accepts, batched snapshots, already-final transactions finalized again on other chains) over 3 assets on a real store; after every finalization the recorded total must equal the model (genesis+deposits+mints-submits) and the UTXO-prefix scan of outputs not consumed by a finalized tx, within [0,capacity]; non-trivial = history with a spend of a deposit-derived output and a submit; distinct by last tx hash")
-	c.Require("has-submit", "has-spend", "has-mint", "has-claim", "has-remove", "has-batch", "has-refinalize", "has-pledge", "has-accept", "capacity-crossing-refused")
+	c := kit.New(t, "C17", "rapid: finalized histories (10..60 actions: deposits, transfers with fan-in/out, withdrawal submits/claims, mints, node removals, pledges and accepts, batched snapshots, already-final transactions finalized again on other chains, spends naming one output under index and index+256*j whose admission - if any - is carried through to finalization) over 3 assets on a real store; after every finalization the recorded total must equal the model (genesis+deposits+mints-submits) and the UTXO-prefix scan of outputs not consumed by a finalized tx, within [0,capacity]; non-trivial = history with a spend of a deposit-derived output and a submit; distinct by last tx hash")
+	c.Require("has-submit", "has-spend", "has-mint", "has-claim", "has-remove", "has-batch", "has-refinalize", "has-pledge", "has-accept", "capacity-crossing-refused", "alias-index-spend-offered")
 	kit.SetChecks(kit.N(100, 4000))
 	rapid.Check(t, func(t *rapid.T) {
 		l := vpLNewLedger(7, "c17", 6)
 		defer l.Close()
 		steps := rapid.IntRange(10, 60).Draw(t, "steps")
-		var nsub, nspend, nmint, nclaim, nremove, nbatch, nrefin, npledge, naccept, ncross int
+		var nsub, nspend, nmint, nclaim, nremove, nbatch, nrefin, npledge, naccept, ncross, nalias int
 		for i := 0; i < steps; i++ {
-			k := rapid.IntRange(0, 14).Draw(t, "kind")
+			k := rapid.IntRange(0, 15).Draw(t, "kind")
 			fin := rapid.IntRange(0, 2).Draw(t, "fin") != 0
 			switch {
 			case i < 2 || k <= 2:
@@ -132,6 +132,52 @@ func TestVP_C17_supply(t *testing.T) {
 				if l.StepRefinalize(t) != nil {
 					nrefin++
 				}
+			case k == 15:
+				// An output named twice under indexes that a careless key layout
+				// could fold together (index and index+256*j; indexes up to 1024
+				// pass the input format rules): admission normally refuses the
+				// second input as unknown. Whatever admission lets through is
+				// finalized, and the supply check below judges the result.
+				free := l.Unspent(nil, true, true)
+				if len(free) == 0 {
+					continue
+				}
+				u := free[rapid.IntRange(0, len(free)-1).Draw(t, "alias_of")]
+				if u.Type != common.OutputTypeScript || u.threshold() != 1 || u.Owners[0] < 0 {
+					continue
+				}
+				j := rapid.IntRange(1, 3).Draw(t, "alias_j")
+				if u.Index+uint(256*j) > 1024 {
+					continue
+				}
+				twin := *u
+				twin.Index = u.Index + uint(256*j)
+				ins := []*vpLUTXO{u, &twin}
+				tx := l.BuildSpend(u.Asset, ins, []vpLOut{{Type: common.OutputTypeScript, Owners: []int{u.Owners[0]}, Threshold: 1, Amount: u.Amount.Add(u.Amount)}}, nil, []byte("alias"))
+				// both inputs are signed with the key of the one real output
+				signed := &common.SignedTransaction{Transaction: *tx}
+				msg := tx.AsVersioned().PayloadHash()
+				for range ins {
+					sig := l.ownerKey(u, 0).Sign(msg)
+					signed.SignaturesMap = append(signed.SignaturesMap, map[uint16]*crypto.Signature{0: &sig})
+				}
+				ver := signed.AsVersioned()
+				nalias++
+				if err := ver.Validate(l.Store, l.Tick(1000), false); err != nil {
+					continue
+				}
+				if err := ver.LockInputs(l.Store, false); err != nil {
+					continue
+				}
+				if err := l.Store.WriteTransaction(ver); err != nil {
+					continue
+				}
+				snap := l.MakeSnapshot(rapid.IntRange(0, 6).Draw(t, "alias_chain"), []crypto.Hash{ver.PayloadHash()}, l.Tick(1000))
+				var werr error
+				if pan := vpLCatch(func() { werr = l.Store.WriteSnapshot(snap, l.NodeIds) }); pan != nil || werr != nil {
+					continue
+				}
+				t.Logf("a spend of %s:%d together with %s:%d was admitted and finalized", u.Hash, u.Index, u.Hash, twin.Index)
 			default:
 				var hs []crypto.Hash
 				for _, x := range l.PendingTxs() {
@@ -209,7 +255,7 @@ func TestVP_C17_supply(t *testing.T) {
 			}
 		}
 		var cl []string
-		for name, n := range map[string]int{"has-submit": nsub, "has-spend": nspend, "has-mint": nmint, "has-claim": nclaim, "has-remove": nremove, "has-batch": nbatch, "has-refinalize": nrefin, "has-pledge": npledge, "has-accept": naccept, "capacity-crossing-refused": ncross} {
+		for name, n := range map[string]int{"has-submit": nsub, "has-spend": nspend, "has-mint": nmint, "has-claim": nclaim, "has-remove": nremove, "has-batch": nbatch, "has-refinalize": nrefin, "has-pledge": npledge, "has-accept": naccept, "capacity-crossing-refused": ncross, "alias-index-spend-offered": nalias} {
 			if n > 0 {
 				cl = append(cl, name)
 			}
